@@ -132,7 +132,7 @@ def run_check(args):
                 json.dump(rp, fh, indent=1, default=str)
             status = "no-witness"
             out = {}
-            if f.get("witness"):
+            if f.get("witness") is not None:
                 rc, out = M.run_replay(path)
                 n_replayed += 1
                 status = out.get("status", "replay-crashed")
@@ -162,7 +162,11 @@ def run_check(args):
     bounded = run_bounded(prop, tier, seed)
     lines = []
     n_viol = 0
+    known_by_id = {k.get("id"): k for k in known}
     for b in bounded:
+        for kid, hits in (b.get("known_hits") or {}).items():
+            kf = known_by_id.get(kid, {})
+            known_lines.append(f"KNOWN-FINDING: property={prop} {b['contract']} [{kid}] {kf.get('what', '')} ({hits} of the enumerated cases)")
         for f in b["failed"][:1]:
             os.makedirs(replay_dir, exist_ok=True)
             h = hashlib.sha256(json.dumps([b["contract"], f.get("index")], default=str).encode()).hexdigest()[:12]
@@ -316,7 +320,7 @@ def write_evidence(prop, tier, seed, roots, seen, results, obl, n_obl, n_dis, vi
             py_slice_bounds_selftest_cases=n_slice_cases,
             exit_code=rc,
             instrumented_loops=shadow.INSTRUMENTED_LOOPS,
-            bounded_checks=[dict(contract=b["contract"], bound=b["bound"], cases=b["cases"], passed=not b["failed"], wall_s=b["wall"], label="BOUNDED stand-in: native evaluation of the contract on an enumerated input set; not a proof, not counted in obligations/discharged") for b in bounded],
+            bounded_checks=[dict(contract=b["contract"], bound=b["bound"], cases=b["cases"], passed=not b["failed"], known_finding_hits=b.get("known_hits", {}), wall_s=b["wall"], label="BOUNDED stand-in: native evaluation of the contract on an enumerated input set; not a proof, not counted in obligations/discharged") for b in bounded],
         ),
         assumptions=[
             "A1: floats are mathematical reals",
